@@ -938,7 +938,7 @@ private:
               r = r / x;
             }
           }
-          BPP_EIGENVALUE_VERIF_BR(32, x == 0.0);
+          BPP_EIGENVALUE_VERIF_BR(32, k != m && x == 0.0);
           if (k != m && x == 0.0)
           {
             break;
